@@ -257,6 +257,7 @@ def run_check(prop: str, tier: str) -> int:
             "simulated_runs": runs,
             "runs_discarded": discarded,
             "runs_per_hour": int(runs / max(explore_s, 1e-9) * 3600),
+            "executions_per_hour": int(stats.get("executions", runs) / max(explore_s, 1e-9) * 3600),
             "seeds": f"run_seed({base}, i) for i in 0..{runs - 1} interleaved over {lanes} lanes",
             "steps": stats.get("steps", 0),
             "simulated_time": {
